@@ -130,7 +130,8 @@ def _prove_parallel(obs, timeout_ms, ax, want_model, jobs):
                 if pid == 0:
                     try:
                         try:
-                            payload = solver.prove(ob, timeout_ms=timeout_ms, global_axioms=ax, want_model=want_model).to_dict()
+                            # reachability probes expect `sat`: a short budget is enough (no answer counts as reachable)
+                            payload = solver.prove(ob, timeout_ms=(8000 if ob.kind == 'cover' else timeout_ms), global_axioms=ax, want_model=want_model).to_dict()
                         except Exception as e:       # includes Unsupported raised while elaborating
                             payload = unknown(ob, 'elaboration failed: %s: %s' % (type(e).__name__, e))
                         with open(path, 'wb') as f:
@@ -165,7 +166,7 @@ def _prove_isolated(ob, timeout_ms, ax, want_model):
         try:
             os.close(rfd)
             try:
-                r = solver.prove(ob, timeout_ms=timeout_ms, global_axioms=ax, want_model=want_model)
+                r = solver.prove(ob, timeout_ms=(8000 if ob.kind == 'cover' else timeout_ms), global_axioms=ax, want_model=want_model)
                 payload = r.to_dict()
             except Exception as e:       # includes Unsupported raised while elaborating
                 payload = dict(name=ob.name, status='unknown', seconds=0.0, detail='elaboration failed: %s: %s' % (type(e).__name__, e),
@@ -214,7 +215,7 @@ def main(argv):
     reg = load_contracts()
     if not names:
         names = sorted(n for n, c in reg.items() if not c.trusted)
-    res = verify_many(names)
+    res = verify_many(names, timeout_ms=int(os.environ.get("SEDVC_TIMEOUT_MS", "20000")))
     for r in res:
         print("== %s %s [%s] %.2fs paths=%s vacuity=%s reachable=%s/%s" % (r['function'], r.get('variant') or '', r['status'], r['seconds'], r.get('paths'), r.get('vacuity'),
                                                                               r.get('reachable_return_paths'), r.get('return_paths')))
